@@ -24,7 +24,7 @@ import (
 func init() {
 	Registry["C08"] = &Check{
 		Scenarios: c08Scenarios,
-		Rule: "In the blocked-handler mode (two of the six arrival patterns) an application goroutine polls ServeMux.ErrorReports() at every instant. Server.Serve on a scripted listener with two connections (both accepted, or one accepted and one attached with diam.NewConn); three requests per connection (re-auth, device-watchdog, capabilities-exchange, in that order) delivered as {one segment, one segment per message, split at the header/body border, first message in 10-byte pieces, first message one byte at a time}; instrumented handlers record enter/exit around a scheduling point and answer; variants: plain, and the first handler on connection A blocked for ever; in one arrival pattern the first handler of connection B requests CloseNotify (so the rest of B's messages pass through the reader switch); one arrival pattern runs on a zero Server{} (DefaultServeMux, default dictionary); every schedule up to preemption bound 3 (thorough 6). The environment is eager (all fragments queued before the server starts; a Read never crosses a fragment boundary), because the arrival instant of a fragment is unobservable to a per-connection single-threaded reader; what is explored is every interleaving of the accept loop, the per-connection readers and the handlers.",
+		Rule: "Two relay scenarios: a handler of connection A blocks inside a Write to connection B (whose peer has stopped reading) while B keeps receiving - under a Server with and without ReadTimeout / WriteTimeout. In the blocked-handler mode (two of the six arrival patterns) an application goroutine polls ServeMux.ErrorReports() at every instant. Server.Serve on a scripted listener with two connections (both accepted, or one accepted and one attached with diam.NewConn); three requests per connection (re-auth, device-watchdog, capabilities-exchange, in that order) delivered as {one segment, one segment per message, split at the header/body border, first message in 10-byte pieces, first message one byte at a time}; instrumented handlers record enter/exit around a scheduling point and answer; variants: plain, and the first handler on connection A blocked for ever; in one arrival pattern the first handler of connection B requests CloseNotify (so the rest of B's messages pass through the reader switch); one arrival pattern runs on a zero Server{} (DefaultServeMux, default dictionary); every schedule up to preemption bound 3 (thorough 6). The environment is eager (all fragments queued before the server starts; a Read never crosses a fragment boundary), because the arrival instant of a fragment is unobservable to a per-connection single-threaded reader; what is explored is every interleaving of the accept loop, the per-connection readers and the handlers.",
 		Assume: []string{"data-race freedom between visible operations (audited separately with -race)"},
 		QuickBudget: 120, ThoroughBudget: 2400,
 	}
@@ -379,6 +379,7 @@ func c08Scenarios(tier string) []*Scenario {
 			}
 		}
 	}
+	out = append(out, c08RelayBlocked(false, bound), c08RelayBlocked(true, bound))
 	return out
 }
 
@@ -642,4 +643,72 @@ func fmtPlacement(p map[int]int) string {
 		s = append(s, fmt.Sprint(p[i]))
 	}
 	return "[" + strings.Join(s, "") + "]"
+}
+
+// c08RelayBlocked: the handler of a message on connection A forwards it to connection B, whose
+// peer has stopped reading - the handler stays blocked inside that Write. Messages that keep
+// arriving on B must still be dispatched, one after the other (their handlers do not write).
+// With and without Server.ReadTimeout / WriteTimeout (the deadline-arming paths).
+var c08rb struct {
+	handledB []uint32
+	relayed  bool
+	b        *vnet.Conn
+}
+
+func c08RelayBlocked(withTimeouts bool, bound int) *Scenario {
+	body := func() {
+		c08rb.handledB, c08rb.relayed = nil, false
+		a, b := vnet.NewConn("A"), vnet.NewConn("B")
+		a.Pieces, b.Pieces = 1, 1
+		c08rb.b = b
+		b.WriteBlocked = true
+		var connB diam.Conn
+		lis := vnet.NewListener()
+		mux := diam.NewServeMux()
+		mux.HandleFunc("ALL", func(c diam.Conn, m *diam.Message) {
+			if m.Header.HopByHopID == 2 {
+				if connB == nil {
+					connB = c
+				}
+				c08rb.handledB = append(c08rb.handledB, m.Header.EndToEndID)
+				vs.Event("handler on B got message %d", m.Header.EndToEndID)
+				return
+			}
+			vs.BlockObj("wait-B-known", b, func() bool { return connB != nil })
+			vs.Event("handler on A relays to B (whose peer does not read)")
+			c08rb.relayed = true
+			m.WriteTo(connB) // blocks for ever
+		})
+		srv := &diam.Server{Handler: mux, Dict: dict.Default}
+		if withTimeouts {
+			srv.ReadTimeout, srv.WriteTimeout = time.Hour, time.Hour
+		}
+		b.Deliver(srvReq(1, 0))
+		a.Deliver(srvReq(0, 0))
+		lis.Offer(vnet.AcceptItem{Conn: b})
+		lis.Offer(vnet.AcceptItem{Conn: a})
+		vs.GoNamed("serve", false, func() { srv.Serve(lis) })
+		vs.GoNamed("peerB", true, func() {
+			vs.BlockObj("wait-relay-stuck", b, func() bool { return b.InWrite > 0 })
+			vs.Event("peer B sends two more requests while A's handler is stuck writing to B")
+			b.Deliver(srvReq(1, 1))
+			vs.Yield("env")
+			b.Deliver(srvReq(1, 2))
+		})
+	}
+	check := func(s *vs.Sched) string {
+		var v []string
+		if !c08rb.relayed {
+			v = append(v, "harness: the relay never happened")
+		}
+		if fmt.Sprint(c08rb.handledB) != "[1 2 3]" {
+			v = append(v, fmt.Sprintf("connection B: messages %v handled, the peer sent [1 2 3] (the last two while a handler of connection A was blocked writing to B)", c08rb.handledB))
+		}
+		for _, p := range s.Panics() {
+			v = append(v, "panic: "+p)
+		}
+		return strings.Join(v, " | ")
+	}
+	return &Scenario{Name: fmt.Sprintf("dispatch/relay-to-a-peer-that-does-not-read/server-timeouts=%v", withTimeouts), Body: body, Check: check, Bound: bound, Horizon: 10 * time.Second,
+		Outcome: func(s *vs.Sched) string { return fmt.Sprint(c08rb.handledB) }}
 }
